@@ -85,8 +85,12 @@ def grpc_mappings(chk, prog):
         t.v['name'] = 'projects/p/topics/r0'
         s.v['name'] = 'projects/p/subscriptions/r0'
         ex.assume(And(t.isnull('deleted_at'), s.isnull('deleted_at'), s.v['topic_id'] == t.v['id'], s.isnull('dead_letter_topic_id')))
+        db.snap0 = db.snapshot()
         newf = z3.String('new_filter')
         ex.assume(Or(newf == '', F_filter_valid()(newf)))
+        from gosym.world import filter_axioms, filter_vocab_pref
+        from gosym import replay
+        from checks.handlers import req_to_json
 
         def publish(tag):
             attrs = reldb.sym_value(ex, 'map', 'attrs_' + tag)
@@ -104,12 +108,39 @@ def grpc_mappings(chk, prog):
             raise __import__('gosym.core', fromlist=['PathAbort']).PathAbort('update rejected')
         n_before = len(db.t['Delivery'])
         a2, e3 = publish('second')
+        for ax in filter_axioms([s.v['filter'], newf], [a1, a2]):
+            ex.assume(ax)
+        pre_rows = {'Topic': [t], 'Subscription': [db.snap0['Subscription'][0]]} if hasattr(db, 'snap0') else None
+
+        def rp(m, desc):
+            pref = filter_vocab_pref([db.snap0['Subscription'][0].v['filter'], newf])
+            if ex.solver.check(*pref) == z3.sat:
+                pass
+            rows = replay.rows_from_model(m, db.schema, {'Topic': db.snap0['Topic'], 'Subscription': db.snap0['Subscription']}, ('k',))
+            ops = [{'op': 'grpc', 'service': 'publisher', 'method': 'Publish', 'request': {'topic': 'projects/p/topics/r0', 'messages': [{'data': 'ImEi', 'attributes': replay.conc_map(m, a1, ('k',))}]}},
+                   {'op': 'grpc', 'service': 'subscriber', 'method': 'UpdateSubscription', 'request': {'subscription': {'name': 'projects/p/subscriptions/r0', 'filter': replay.mval(m, newf)}, 'updateMask': 'filter'}},
+                   {'op': 'dump'},
+                   {'op': 'grpc', 'service': 'publisher', 'method': 'Publish', 'request': {'topic': 'projects/p/topics/r0', 'messages': [{'data': 'ImIi', 'attributes': replay.conc_map(m, a2, ('k',))}]}}]
+            scn = {'base_now': '2000000000000000000', 'rows': rows, 'ops': ops}
+            out = replay.run_scenarios([scn])[0]
+            path = replay.save_scenario('C02', 'chain-filter-change', scn, desc)
+            if 'error' in out:
+                raise RuntimeError(out['error'][-400:])
+            before = len((out['results'][2].get('state') or {}).get('Delivery') or [])
+            after = len(out['post'].get('Delivery') or [])
+            nf = replay.mval(m, newf)
+            attrs2 = replay.conc_map(m, a2, ('k',))
+            real_want = True if nf == '' else (('k' in attrs2) if nf == 'attributes:k' else ('k' not in attrs2) if nf == 'NOT attributes:k' else None)
+            if real_want is None or any(r.get('code') not in (None, 'OK') for r in out['results'] if r.get('op') == 'grpc'):
+                return False, path
+            return ((after - before == 1) != real_want), path
         ob.verify(ex, 'second-publish-accepted', e3 is None)
         if e3 is not None:
             return
         delivered = len(db.t['Delivery']) - n_before
         want = Or(ex.eq(newf, ''), F_matches()(newf, a2.has, a2.val))
-        ob.verify(ex, 'later-publish-routed-by-the-current-filter', ex.eq(delivered == 1, want),
+        ex.env['small_model'] = filter_vocab_pref([db.snap0['Subscription'][0].v['filter'], newf])
+        ob.verify(ex, 'later-publish-routed-by-the-current-filter', ex.eq(delivered == 1, want), replay=rp, describe=
                   lambda m: {'new_filter': str(m.eval(newf, model_completion=True)), 'old_filter_null': str(m.eval(__import__('gosym.core', fromlist=['zbool']).zbool(s.isnull('filter')), model_completion=True))})
     chk.run('chain:publish,update-filter,publish', prog, h3, bounds={'steps': 3, 'filters': 'arbitrary old and new filter (parser verdict and matching uninterpreted)'},
             setup=world.setup, max_paths=50000)
